@@ -54,6 +54,7 @@ func c05Items() []withItem {
 		{"'-'", func(engine.Match, map[string]string, int) string { return "-" }},
 		{`"q\n"`, func(engine.Match, map[string]string, int) string { return "q\n" }},
 		cap("x"), cap("y"),
+		{"caseless 'Ab\\tC'", func(engine.Match, map[string]string, int) string { return "Ab\tC" }}, // `caseless` means nothing in a replacement: the text as spelled
 		{"value", func(m engine.Match, _ map[string]string, _ int) string { return m.Value }},
 		{"matchNumber", func(m engine.Match, _ map[string]string, _ int) string { return strconv.Itoa(m.MatchNumber) }},
 		{"startOffset", func(m engine.Match, _ map[string]string, _ int) string { return strconv.Itoa(m.Offset.Start) }},
@@ -111,7 +112,7 @@ func init() {
 	register(&Check{
 		ID:    "C05",
 		Level: "exploration",
-		Rule: "every `with` list of length 1..k over 23 items (2 string literals, captures x y, the 8 built-ins, an undefined name, 10 transforms (one returning from inside a loop, one assigning a capture and a built-in on some paths only) reading and ASSIGNING match / matchNumber / captures / locals and reading every built-in) x 14 bodies (two with the captures declared inside `set .. to pattern` definitions, two capturing digits) with 0-2 captures whose values differ between matches x every text over {a,b,\\n} up to the length bound and over {0,7} up to length 3; " +
+		Rule: "every `with` list of length 1..k over 24 items (2 string literals, a `caseless` literal, captures x y, the 8 built-ins, an undefined name, 10 transforms (one returning from inside a loop, one assigning a capture and a built-in on some paths only) reading and ASSIGNING match / matchNumber / captures / locals and reading every built-in) x 14 bodies (two with the captures declared inside `set .. to pattern` definitions, two capturing digits) with 0-2 captures whose values differ between matches x every text over {a,b,\\n} up to the length bound and over {0,7} up to length 3; " +
 			"expected replacement = concatenation of the items computed from the match record itself, and the matches must equal those of `find all` with the same body; non-trivial = distinct (list,body,text) triples with at least 2 matches",
 		Assume: []string{"the four transforms are fixed; the general evaluator is C11's subject", "Run(string) reports filename 'text'"},
 		Budget: map[string]int{"quick": 120, "thorough": 1200},
